@@ -68,7 +68,7 @@ CONTENTS = {
     "only-notif": ["notif"],
     "wrong-id": ["wrong"],
     "wrong-id-type": ["wrongtype"],
-    "non-message-object": ["junk"],
+    "nonmsg": ["junk"],
     "non-message+response": ["junk", "resp"],
 }
 
@@ -312,7 +312,8 @@ def real_steps(sc):
             ans = {"kind": "exc", "exc": a["exc"]}
         else:
             ans = {"kind": "resp", "status": a["status"], "ctype": CTYPES[a["ctype"]], "body": st["_raw"],
-                   "session": a.get("session"), "redirect": bool(a.get("redirect"))}
+                   "session": a.get("session"), "redirect": bool(a.get("redirect")),
+                   "te": a.get("te", "length"), "split": a.get("split", 0)}
         out.append({"req": st["_req"], "ans": ans})
     return out
 
@@ -381,7 +382,7 @@ def model_run(scenarios, drv):
             a = st["ans"]
             req = st["_req"]
             if a["kind"] == "exc":
-                ans = f"(1 {EXCS.index(a['exc'])})"
+                ans = f"(1 {EXCS.index('protocol' if a['exc'] == 'aborted' else a['exc'])})"
             else:
                 ans = "(0 {} {} {} {} {})".format(a["status"], sx(CTYPES[a["ctype"]] or ""), sx(st["_text"]), sx(st["_utf8"]),
                                                   sxo(a.get("session")))
@@ -454,7 +455,7 @@ def causes(st):
     """Features of the answer (and request) that single out a body class: the failing-input class is named after them."""
     a = st["ans"]
     if a["kind"] == "exc":
-        return ["exception-" + a["exc"]]
+        return ["exc-" + a["exc"]]
     out = []
     b = a["body"]
     fr, ct = b["framing"], a["ctype"]
@@ -465,38 +466,40 @@ def causes(st):
         names = list(ENCS)
         encs = [ENCS[names[(i * 3 + 1) % len(names)]] for i in range(len(kinds))] if b["enc"] == "mixed" else [ENCS[b["enc"]]]
         if any(not e[3] for e in encs):
-            out.append("sse-no-space-after-colon")
+            out.append("nospace")
         if any(e[2] == 0 for e in encs):
-            out.append("sse-no-event-field")
+            out.append("noevent")
+        if any(e[4] for e in encs):
+            out.append("crlf")
     if fr == "sse-array-event":
-        out.append("sse-event-carrying-array")
+        out.append("arrayev")
     if fr == "json-array" or (fr == "json" and len(kinds) != 1):
-        out.append("json-batch-array")
+        out.append("batch")
     if fr in SCALARS:
         out.append(fr)
     if fr in RAW:
-        out.append(fr + "-body")
+        out.append(fr)
     if "junk" in kinds:
-        out.append("non-message-object")
+        out.append("nonmsg")
     if "wrong" in kinds or "wrongtype" in kinds:
-        out.append("wrong-id")
+        out.append("wrongid")
     if kinds and not any(k in ("resp", "uresp", "err", "wrong", "wrongtype") for k in kinds):
-        out.append("no-response-in-body")
+        out.append("noresp")
     if b.get("damage"):
-        out.append(b["damage"])
+        out.append({"truncated": "trunc", "non-utf8": "nonutf8"}[b["damage"]])
     sse_framed = fr in ("sse", "sse-array-event")
     sniffable = sse_framed and st.get("_text", "").startswith(("event:", "data:"))
     if ct == "sse" and not sse_framed:
-        out.append("labelled-event-stream")
+        out.append("as-sse")
     if ct in ("json", "json-charset") and (sse_framed or fr in ("non-json", "html")):
-        out.append("labelled-json")
+        out.append("as-json")
     if ct in ("other", "absent") and sse_framed and not sniffable:
-        out.append("unlabelled-sse-not-sniffed")
+        out.append("unsniffed")
     if a["status"] == 202 and ct in ("other", "absent") and (fr in ("non-json", "html", "garbage-bytes") or b.get("damage") == "truncated"
                                                            or (sse_framed and not sniffable)):
-        out.append("status-202")
+        out.append("202")
     if st["req"] == "req-zero" and fr == "empty" and ct in ("other", "absent"):
-        out.append("request-id-0")
+        out.append("id0")
     return out or ["plain"]
 
 
@@ -538,16 +541,16 @@ def judge(ctx, sc, obs, drv_calls):
                 cz = "+".join(causes(st))
                 if not deliv_ok:
                     invented = [t for t in srv if t not in intent]
-                    what = "message-invented" if invented else ("message-lost" if len(srv) < len(intent) else "messages-reordered")
+                    what = "invented" if invented else ("lost" if len(srv) < len(intent) else "reordered")
                     ctx.spec_violation(f"{what}:{cz}", case, f"{where}: body contains messages {intent}, delivered {delivered}")
                 if not term_ok:
                     syn = [m for m in delivered if m[0] == "Y"]
                     if rid is None:
-                        what = "notification-got-synthesised-id"
+                        what = "notif-synth-id"
                     elif not syn:
-                        what = "no-terminal-message"
+                        what = "no-terminal"
                     else:
-                        what = "wrong-synthesised-messages"
+                        what = "bad-synth"
                     ctx.spec_violation(f"{what}:{cz}", case, f"{where}: delivered {delivered}")
             post.append((2, chk))
         # session header carried by this POST
@@ -580,11 +583,16 @@ def issued(a):
 
 
 # --------------------------------------------------------------------------- #
-def run_cases(ctx, scenarios, drv):
+def run_cases(ctx, scenarios, drv, sockets=False):
     if not scenarios:
         return
     materialise(scenarios, drv)
-    impl = R.run_scenarios([(real_steps(sc), sc.get("init")) for sc in scenarios])
+    if sockets:
+        impl = R.run_socket_scenarios([(real_steps(sc), sc.get("init"),
+                                        0.3 if any(st["ans"].get("exc") == "read-timeout" for st in sc["steps"]) else 5.0)
+                                       for sc in scenarios])
+    else:
+        impl = R.run_scenarios([(real_steps(sc), sc.get("init")) for sc in scenarios])
     model = model_run(scenarios, drv)
     calls, interp = [], []
     for sc, ob, mo in zip(scenarios, impl, model):
@@ -593,6 +601,7 @@ def run_cases(ctx, scenarios, drv):
                          for st in sc["steps"])
         ctx.case(case, nontrivial=nontrivial)
         ctx.count(f"len:{len(sc['steps'])}")
+        ctx.count("transport:" + ("loopback-socket" if sockets else "MockTransport"))
         for st in sc["steps"]:
             a = st["ans"]
             ctx.count("req:" + st["req"])
@@ -607,6 +616,8 @@ def run_cases(ctx, scenarios, drv):
                 ctx.count("session:" + ("issued" if a.get("session") else "absent"))
                 if a.get("redirect"):
                     ctx.count("redirect:307")
+                if sockets:
+                    ctx.count(f"wire:{a.get('te', 'length')}/split{a.get('split', 0)}")
         # correspondence
         impl_obs = {"alive": ob["alive"], "final": ob["sentinel_session"] if ob["alive"] else None,
                     "steps": [{"sent": o["sent_session"], "out": [canon_impl(d) for d in o["delivered"]]} if o["posted"] else None
@@ -674,6 +685,38 @@ def sequence_scenarios(ctx, n):
     return out
 
 
+def socket_scenarios(ctx, n):
+    """The same matrix over a real loopback HTTP/1.1 server: plus body framing on the wire (Content-Length, chunked,
+    close-delimited), split TCP writes, aborted transfers, a silent server."""
+    rng = ctx.rng
+    answers = [a for a in all_answers(False)
+               if a["kind"] == "resp" and not (a["status"] == 204 and a["body"]["framing"] != "empty")]
+    out = []
+    sess_n = 0
+    slow = 0
+    for _ in range(n):
+        steps = []
+        for _k in range(rng.choice((1, 1, 2, 3, 4))):
+            r = rng.random()
+            if r < 0.12:
+                kind = rng.choice(("protocol", "aborted", "read-timeout"))
+                if kind == "read-timeout":
+                    slow += 1
+                    if slow > max(4, n // 60):
+                        kind = "aborted"
+                a = {"kind": "exc", "exc": kind}
+            else:
+                a = dict(rng.choice(answers))
+                a["te"] = rng.choice(("length", "chunked", "close"))
+                a["split"] = rng.choice((0, 0, 1, 3, 16, 64))
+                if rng.random() < 0.4:
+                    sess_n += 1
+                    a["session"] = f"sock-{sess_n}"
+            steps.append({"req": rng.choice(REQ_KINDS + ["req-int", "req-str"]), "ans": a})
+        out.append({"init": rng.choice((None, None, "init-1")), "steps": steps})
+    return out
+
+
 def explore(ctx, drv):
     thorough = ctx.thorough or ctx.escalated
     singles = single_scenarios(ctx, thorough)
@@ -683,10 +726,30 @@ def explore(ctx, drv):
     seqs = sequence_scenarios(ctx, ctx.budget(600, 12000))
     for i in range(0, len(seqs), chunk):
         run_cases(ctx, seqs[i:i + chunk], drv)
+    socks = socket_scenarios(ctx, ctx.budget(70, 1500))   # ~40 ms per POST: httpx builds an SSL context per client
+    for i in range(0, len(socks), chunk):
+        run_cases(ctx, socks[i:i + chunk], drv, sockets=True)
+    refused_check(ctx)
     ctx.exhaustive = True
+    ctx.extra["socket_scenarios"] = len(socks)
     ctx.extra["single_answers_enumerated"] = len(all_answers(thorough))
     ctx.extra["single_scenarios"] = len(singles)
     ctx.extra["sequence_scenarios"] = len(seqs)
+
+
+def refused_check(ctx):
+    """A refused connection (nothing listens on the port): exactly one synthesised error for a request, no id for a notification."""
+    import asyncio
+    for rk in ("req-int", "req-zero", "notif"):
+        req = make_request(rk, 0)
+        got = [canon_impl(d) for d in asyncio.run(R.run_refused(req))]
+        case = {"init": None, "steps": [{"req": rk, "ans": {"kind": "exc", "exc": "connect", "real": "refused-port"}}]}
+        ctx.case(case)
+        ctx.count("transport:refused-port")
+        ctx.spec_total += 1
+        want = [["Y", req.get("id"), "error"]]
+        if got != want:
+            ctx.spec_violation("bad-synth:refused-connection", case, f"refused connection: delivered {got}, demanded {want}")
 
 
 def run(ctx):
